@@ -45,6 +45,12 @@ class MDCPDPAdapter(RoutingAdapter):
     reward_td = "final"
     shard = 60
     tiny = 4
+    # keys of the step output compared with the row model after every step in C02 / C04 (Harness/HMDCPDP.v book_obs);
+    # i and current_node also against their definition (step count, last action)
+    book_keys = (("i", "int"), ("current_node", "int"), ("current_depot", "int"), ("current_carry", "int"), ("available", "bits"),
+                 ("to_deliver", "bits"), ("current_length", "fvec"), ("arrivetime_record", "fvec"))
+    book_fn = "check_book" if not _code else "(check_book_with (%s))" % _code
+    book_type = "md_book"
 
     # ---------------------------------------------------------------- variants
     def variants(self, tier):
@@ -113,8 +119,60 @@ class MDCPDPAdapter(RoutingAdapter):
 
     # ---------------------------------------------------------------- episodes (own collect: batched rows need row 0's legs)
     def dist_matrix(self, env, td_reset_row):
+        """M[a][b] = distance between nodes a and b by the env's DOCUMENTED `dist_mode` (L1: |dx| + |dy|, L2: sqrt(dx^2 + dy^2)),
+        computed here from td["locs"] with explicit float32 operations -- NOT through env.get_distance, so that the model
+        does not inherit an edit of that function.  `dist_crosscheck` compares the two bit for bit."""
         locs = td_reset_row["locs"][0]
-        return env.get_distance(locs[:, None, :], locs[None, :, :])
+        d = (locs[None, :, :] - locs[:, None, :]).abs()
+        dx, dy = d[..., 0], d[..., 1]
+        if env.dist_mode == "L1":
+            return dx + dy
+        if env.dist_mode == "L2":
+            # torch's 2-norm reduction, the float32 operation the env documents ("L2 norm"); the hand-written
+            # sqrt(dx*dx + dy*dy) differs from it in the last bit on about half of all random pairs
+            return d.norm(p=2, dim=-1)
+        raise ValueError("undocumented dist_mode %r" % (env.dist_mode,))
+
+    def dist_crosscheck(self, ctx, items, pid):
+        """counted cross-check: the env's own get_distance, in the two tensor shapes the env calls it with ([N,N,2] broadcast
+        and [B,2] pairs as in _step / _get_reward), against the independent matrix handed to the model -- bit for bit.
+        A difference is a concrete failure of C03 (the reward is then not the documented L1 / L2 route length)."""
+        seen = set()
+        n_ok = n_bad = 0
+        for it in items:
+            key = (id(it.env), str(it.td_reset["locs"].tolist()))
+            if key in seen:
+                continue
+            seen.add(key)
+            env = it.env
+            locs = it.td_reset["locs"][0]
+            M = self.dist_matrix(env, it.td_reset)
+            n = locs.shape[0]
+            idx = torch.arange(n)
+            pa, pb = idx.repeat_interleave(n), idx.repeat(n)
+            try:
+                E = env.get_distance(locs[:, None, :], locs[None, :, :])
+                P = env.get_distance(locs[pa], locs[pb]).reshape(n, n)
+                same = torch.equal(E, M) and torch.equal(P, M)
+            except Exception as e:           # noqa: BLE001
+                same, E = False, None
+            if same:
+                n_ok += 1
+                continue
+            n_bad += 1
+            if pid == "C03" and n_bad == 1:
+                a, b = (0, 0)
+                if E is not None:
+                    nz = (E != M).nonzero()
+                    a, b = (int(nz[0, 0]), int(nz[0, 1])) if len(nz) else (0, 0)
+                ctx.failure("mdcpdp/dist_mode=%s: get_distance-is-not-the-documented-norm" % env.dist_mode,
+                            it.replay({"what": "env.get_distance(locs[a], locs[b]) differs from the documented %s distance of the two points" % env.dist_mode,
+                                       "node_a": a, "node_b": b, "loc_a": locs[a].tolist(), "loc_b": locs[b].tolist(),
+                                       "env_get_distance": None if E is None else float(E[a, b]),
+                                       "documented_distance": float(M[a, b])}), tag=self.name)
+        ctx.count("%s/distance_crosscheck/instances_agreeing_bitwise" % self.name, n_ok)
+        ctx.count("%s/distance_crosscheck/instances_differing" % self.name, n_bad)
+        return {"distance_crosscheck": {"agree": n_ok, "differ": n_bad}}
 
     def _annotate(self, env, td_reset, actions, r):
         """td_reset row r + what the model needs to know about the batch: is the row alone / row 0, else row 0's raw legs"""
@@ -317,6 +375,11 @@ class MDCPDPAdapter(RoutingAdapter):
 
     # ---------------------------------------------------------------- C03: the unreachable mode
     def extra_c03(self, ctx, tier, items):
+        out = self.dist_crosscheck(ctx, items, "C03")
+        out.update(self._extra_c03_square(ctx, tier, items) or {})
+        return out
+
+    def _extra_c03_square(self, ctx, tier, items):
         from rl4co.envs import MDCPDPEnv
         env = MDCPDPEnv(generator_params={"num_loc": 2, "num_depot": 1}, reward_mode="lateness_square", check_solution=False)
         td_in = self._line_td(1, [0, 3, 7], [1])
@@ -389,8 +452,10 @@ class MDCPDPAdapter(RoutingAdapter):
                                 it.replay({"what": "same instance, same actions, at least one padding step in both runs: reward in the batch differs from the solo reward",
                                            "position": pos, "solo_reward": e1[0].reward, "batch_reward": e.reward,
                                            "batch_instances": [hexrow(t) for t in rows], "batch_actions": actions.tolist()}), tag=self.name)
-        return {"c04_padding_comparisons": n_pad, "c04_padding_differences": n_pad_bad, "c04_batch_comparisons": n_b,
-                "c04_batch_differences": n_b_bad, "c04_other_differences": n_other}
+        out = {"c04_padding_comparisons": n_pad, "c04_padding_differences": n_pad_bad, "c04_batch_comparisons": n_b,
+               "c04_batch_differences": n_b_bad, "c04_other_differences": n_other}
+        out.update(self.dist_crosscheck(ctx, items, "C04"))
+        return out
 
     # ---------------------------------------------------------------- C05: spec-level enumeration
     def feasible_solutions(self, env, td_reset, variant):
